@@ -48,10 +48,15 @@ Proof. exact seg_invariant. Qed.
 Print Assumptions C18_seg_invariant.
 
 (* The chunk-fed literal decoder equals the reference decoding of the whole stream: messages,
-   first error, unconsumed rest.  For HTTP the reference [ref_http] (C18_HttpRef.v) cuts the
-   whole stream into its CRLF-terminated lines and runs the request grammar over the list of
-   lines; result = events, final parser state, unconsumed bytes, abandoned flag.  (A further,
-   fully independent reference is the Python oracle of the check.) *)
+   first error, unconsumed rest.  The codec's reference [ref_decode] is written independently of the
+   model (list surgery from the wire-format comment).  For HTTP the reference [ref_http]
+   (C18_HttpRef.v) cuts the whole stream into its CRLF-terminated lines and folds over the list of
+   lines; result = events, final parser state, unconsumed bytes, abandoned flag.  It is independent
+   of the parser in its CONTROL STRUCTURE only: per line it calls the model's own find_crlf,
+   processRequestLine, find_byte COLON and add_header.  The independent per-line definitions are
+   C18_http_request_line_declarative (request line), C18_http_accepts_only_valid (iff against
+   valid_request_line) and C18_http_header_semantics (header lines) below.  (A further, fully
+   independent reference is the Python oracle of the check.) *)
 Theorem C18_equals_reference :
   (forall (msg : Type) (parse : list byte -> option msg) (tag : list byte) (chunks : list (list byte)),
     let s := concat chunks in
@@ -145,8 +150,10 @@ Theorem C18_consumes_only_own_bytes :
 Proof. exact consumes_only_own_bytes. Qed.
 Print Assumptions C18_consumes_only_own_bytes.
 
-(* No input makes a bounds-checked read of the codec fail (every read of onMessage / parse /
-   validateChecksum / asInt32 is inside the received bytes), and the loop terminates. *)
+(* No input makes a bounds-checked read of the CODEC fail (every read of onMessage / parse /
+   validateChecksum / asInt32 is inside the received bytes), and the loop terminates.  (Codec only:
+   the HTTP model works on lists, where an over-read cannot be written down; for processRequestLine
+   see C18_http_request_line_reads_in_bounds, for the old codec C18_old_codec_reads_in_bounds.) *)
 Theorem C18_reads_in_bounds :
   forall (msg : Type) (parse : list byte -> option msg) (tag : list byte) chunks,
     ~ In CFault (fst (codec_feed_all msg parse tag codec_init chunks)) /\
